@@ -235,6 +235,12 @@ func (d *Decoder) decompress(claimedUncompressedSize int, rd io.Reader) (decompr
 	if err != nil {
 		return nil, fmt.Errorf("error decompressing payload: %w", err)
 	}
+	// The body must inflate to exactly the claimed size, not more.
+	var extra [1]byte
+	if m, _ := d.zrd.Read(extra[:]); m > 0 {
+		return nil, errs.NewSilentErr("compressed payload inflates to more than the claimed size %d",
+			claimedUncompressedSize)
+	}
 	return decompressed, d.zrd.Close()
 }
 
